@@ -20,12 +20,14 @@ attribute [api_eval] Exchange.run Exchange.request Exchange.raise checkCc rerais
   fresh defaults setInt setBit setArr intAt bitAt arrAt optIntAt optArrAt
   encode encAux encField encPrim leBytes packBits decode decAux decField decPrim popN isCcStop leVal unpackBits
   Cond.eval handle handleApp handleChassis handleSensorEvent handleTransport handlePicmg reply fail
-  ccOk ccInvalidCmd ccLength ccInvalidField le16 le24 fmtOpt
+  ccOk ccInvalidCmd ccLength ccInvalidField le16 le24 fmtOpt handleDcmi le32
   Outcome.bind_ok
 
 attribute [api_eval]
   reqChassisControl_eq rspChassisControl_eq reqColdReset_eq rspColdReset_eq reqFruControl_eq rspFruControl_eq
   reqGetComponentProperties_eq rspGetComponentProperties_eq
+  reqGetDcmiCapabilities_eq rspGetDcmiCapabilities_eq reqGetPowerReading_eq rspGetPowerReading_eq
+  reqGetDcmiSensorInfo_eq rspGetDcmiSensorInfo_eq
   reqGetChassisStatus_eq rspGetChassisStatus_eq reqGetDeviceGuid_eq rspGetDeviceGuid_eq reqGetDeviceId_eq rspGetDeviceId_eq
   reqGetEventReceiver_eq rspGetEventReceiver_eq reqGetFanLevel_eq rspGetFanLevel_eq
   reqGetFanSpeedProperties_eq rspGetFanSpeedProperties_eq reqGetFruLedState_eq rspGetFruLedState_eq
@@ -173,6 +175,14 @@ def DescrWf (d : List Nat) : Prop := d.length ≤ 12 ∧ ∀ c ∈ d, 0 < c ∧ 
 def lanWf (k : Nat) (d : List Nat) : Prop :=
   Bytes d ∧ (k % 256 = 4 → 1 ≤ d.length) ∧ (k % 256 = 20 → 2 ≤ d.length)
 
+structure PowerReading.Wf (p : PowerReading) : Prop where
+  current : p.current < 65536
+  minimum : p.minimum < 65536
+  maximum : p.maximum < 65536
+  average : p.average < 65536
+  timestamp : p.timestamp < 4294967296
+  period : p.period < 4294967296
+
 structure BmcState.Wf (s : BmcState) : Prop where
   device : s.device.Wf
   guid : s.guid.length = 16
@@ -199,6 +209,10 @@ structure BmcState.Wf (s : BmcState) : Prop where
   hpmRollback : s.hpm.rollbackStatus < 256
   hpmRollbackEstimate : ∀ e, s.hpm.rollbackEstimate = some e → e < 256
   hpmDescr : s.hpm.compDescr.All fun _ d => DescrWf d
+  dcmiMajor : s.dcmi.confMajor < 256
+  dcmiMinor : s.dcmi.confMinor < 256
+  dcmiPower : s.dcmi.power.All fun _ p => p.Wf
+  dcmiSensors : s.dcmi.sensors.All fun _ l => ∀ v ∈ l, v < 65536
 
 /-! ### argument ranges -/
 
@@ -254,6 +268,8 @@ def Call.InRange : Call → Prop
   | .setSignalingClass iface ch cls => iface < 4 ∧ ch < 64 ∧ cls < 16
   | .getSignalingClass iface ch => iface < 4 ∧ ch < 64
   | .getComponentDescription id => id < 256
+  | .getDcmiCapabilities sel => sel < 256
+  | .getPowerReading mode attrs => mode < 256 ∧ attrs < 256
   | _ => True
 
 /-! ### how an oracle value looks through the Python API -/
